@@ -205,6 +205,18 @@ class Gen:
             return self.g_worker()
         k = rng.randint(2, min(len(ws), 4 if not self.thorough else 5))
         lst = rng.sample(ws, k)
+        prev = [[w.name for w in s_.list_of_workers] for s_ in self.real.selects()
+                if all(w.name in ws for w in s_.list_of_workers)]
+        if prev and rng.random() < 0.45:
+            # overlap with an earlier selection (Same / DistinctWorkers only speak about common workers)
+            base = rng.choice(prev)
+            keep = rng.sample(base, rng.randint(1, len(base)))
+            lst = list(dict.fromkeys(keep + lst))[:max(2, k)]
+            k = len(lst)
+        if self.real.cumuls and rng.random() < 0.1 and not self.frag and not self.simple:
+            # a cumulative worker listed in a selection (only the creation is inside the model: such a selection is
+            # never required afterwards, see finding F40)
+            lst[rng.randrange(k)] = rng.choice(list(self.real.cumuls))
         n = rng.randint(1, k)
         if rng.random() < self.invalid_p:
             n = rng.choice([0, k + 1])
@@ -223,7 +235,7 @@ class Gen:
                 choices.append(("worker", w))
         for i, s in enumerate(self.real.selects()):
             names = {w.name for w in s.list_of_workers}
-            if not (names & already) and not any(n for n in names if "_CumulativeWorker_" in n):
+            if not (names & already) and not any(n for n in names if "_CumulativeWorker_" in n or n in self.real.cumuls):
                 choices.append(("select", i))
         for c, cw in self.real.cumuls.items():
             if not ({w.name for w in cw._cumulative_workers} & already):
@@ -351,6 +363,11 @@ class Gen:
             return ("not", self.raw_fml(depth + 1))
         return (rng.choice(["<=", "<", ">=", ">", "=", "!="]), self.raw_term(), self.raw_term())
 
+    def cond(self):
+        """condition of Implies / IfThenElse: sometimes a constant (a plain Python bool, e.g. a configuration flag)"""
+        r = self.rng.random()
+        return True if r < 0.06 else (False if r < 0.12 else self.raw_fml())
+
     def operand(self):
         rng = self.rng
         n = self.nconstraints()
@@ -374,9 +391,9 @@ class Gen:
         elif k == "xor":
             c = ("xor", self.operand(), self.operand())
         elif k == "implies":
-            c = ("implies", self.raw_fml(), ops())
+            c = ("implies", self.cond(), ops())
         elif k == "ifThenElse":
-            c = ("ifThenElse", self.raw_fml(), ops(), ops())
+            c = ("ifThenElse", self.cond(), ops(), ops())
         else:
             c = ("fromExpr", self.raw_fml())
         d = {"op": "constraint", "c": c}
@@ -466,8 +483,10 @@ class Gen:
                       lambda: ("distance", r2, rng.choice([0, 1, 2, 4]), rng.choice([None, None, ivs()]), self.count_kind())]
         ns = self.nselects()
         if ns >= 2:
-            forms += [lambda: ("sameWorkers", rng.randrange(ns), rng.randrange(ns)),
-                      lambda: ("distinctWorkers", rng.randrange(ns), rng.randrange(ns))]
+            def two():
+                a = rng.randrange(ns)
+                return a, rng.choice([x for x in range(ns) if x != a])
+            forms += [lambda: ("sameWorkers", *two()), lambda: ("distinctWorkers", *two())] * 2
         d = {"op": "constraint", "c": rng.choice(forms)()}
         if rng.random() < 0.12:
             d["optional"] = True
@@ -521,8 +540,8 @@ class Gen:
                                   None if self.simple else rng.choice([None, (0, 9), (0, 30), (0, 100)])))
         if res:
             r = rng.choice(res)
-            forms += [lambda: ("utilization", r), lambda: ("nbTasksAssigned", r),
-                      lambda: ("resourceCost", rng.sample(res, rng.randint(1, min(3, len(res)))))]
+            forms += [lambda: ("utilization", r), lambda: ("nbTasksAssigned", r)]
+            forms += [lambda: ("resourceCost", rng.sample(res, rng.randint(1, min(3, len(res)))))] * 2
             two = [n for n in self.plain_workers() if self.nbusy(n) >= 2]
             if not two and rng.random() < 0.3 and self.second_assignment():
                 return
@@ -590,7 +609,18 @@ class Gen:
         for _ in range(rng.randint(1, 2)):
             self.g_worker()
         ws = self.plain_workers()
+        if rng.random() < 0.3 and len(self.tasks()) >= 2:
+            # two overlapping selections required by two tasks (Same / DistinctWorkers, selection counts)
+            while len(self.plain_workers()) < 3:
+                self.g_worker()
+            ws = self.plain_workers()
+            for t in self.tasks()[:2]:
+                self.g_select()
+                if self.nselects():
+                    self.emit({"op": "require", "task": t, "res": ("select", self.nselects() - 1)})
         for t in self.tasks():
+            if self.real.tasks[t]._required_resources:
+                continue
             if rng.random() < 0.9:
                 d = {"op": "require", "task": t, "res": ("worker", rng.choice(ws))}
                 m = rng.random()
